@@ -168,7 +168,7 @@ fn record(args: &Args) {
     let mut rng = Rng(seed() ^ 0x5EED_C05);
     for gid in 0..n {
         let m = 4 + rng.below(mmax - 3);
-        let g0 = random_graph(&mut rng, m, &[("ok", 5), ("guest", 2)]);
+        let g0 = random_graph(&mut rng, m, &[("ok", 5), ("guest", 2)], 0);
         let (oids0, rank) = w.materialise_free(&g0, gid as u64 + seed() * 104729);
         let g = relabel(&g0, &rank);
         let mut oids = vec![oids0[0]; m + 1];
